@@ -17,13 +17,20 @@ type Ref struct {
 	Rel  string `json:"r,omitempty"`
 	Wild bool   `json:"w,omitempty"`
 	Cond string `json:"c,omitempty"`
+	// EmptyRel: the relation of the restriction is present and empty - a userset
+	// restriction on the relation literally named "" (JSON / protobuf only:
+	// `{"type": "group", "relation": ""}`); which branch of the oneof is set, not
+	// the value, says what kind of restriction it is
+	EmptyRel bool `json:"er,omitempty"`
 }
+
+func (r Ref) userset() bool { return r.Rel != "" || r.EmptyRel }
 
 func (r Ref) Target() string {
 	switch {
 	case r.Wild:
 		return r.Type + ":*"
-	case r.Rel != "":
+	case r.userset():
 		return r.Type + "#" + r.Rel
 	}
 	return r.Type
@@ -254,7 +261,7 @@ func refToProto(r Ref) *openfgav1.RelationReference {
 	p := &openfgav1.RelationReference{Type: r.Type, Condition: r.Cond}
 	if r.Wild {
 		p.RelationOrWildcard = &openfgav1.RelationReference_Wildcard{Wildcard: &openfgav1.Wildcard{}}
-	} else if r.Rel != "" {
+	} else if r.userset() {
 		p.RelationOrWildcard = &openfgav1.RelationReference_Relation{Relation: r.Rel}
 	}
 	return p
